@@ -76,6 +76,7 @@ def cases(tier, seed):
     na = 3 if tier == "quick" else 60
     for k in range(na):
         surfs = rand_surfaces(rng, 1)
+        zoo.sane_wing(surfs[0]["mesh"])
         surfs[0]["mesh"]["ny"] = max(3, surfs[0]["mesh"]["ny"])
         surfs[0]["fem_model_type"] = "tube" if k % 2 == 0 else "wingbox"
         if surfs[0]["mesh"]["half"] == "right":
